@@ -663,6 +663,12 @@ def gen_parse_ops(rng, tier):
     for loc in LOCALES:
         for t in ("dddd", "ddd", "dd", "MMMM", "MMM"):
             yield ("fromfmt", loc, (("t", t),), "invalid", gen_now(rng), ("err", "ValueError"), "mut:word")
+    # a 12-hour token without a meridiem token: 1..12 only (13..23 is not a 12-hour reading, whatever the rest of the format)
+    for hour in range(13, 24):
+        for fmt_parts, txt in (((("t", "hh"), ("l", ":"), ("t", "mm")), "%02d:30" % hour), ((("t", "h"), ("l", "."), ("t", "m")), "%d.5" % hour),
+                               ((("t", "YYYY"), ("l", "-"), ("t", "MM"), ("l", "-"), ("t", "DD"), ("l", " "), ("t", "hh"), ("l", ":"), ("t", "mm"),
+                                 ("l", ":"), ("t", "ss")), "2021-03-04 %02d:05:06" % hour)):
+            yield ("fromfmt", "en", fmt_parts, txt, gen_now(rng), ("err", "ValueError"), "h12-range")
     # 7c. the zone-name token with names that are not IANA zones: directories of the tz database (region prefixes), system files
     #     that live next to the zones, near misses. The string matches the format; the value is invalid -> ValueError
     import zoneinfo as _zi
